@@ -169,7 +169,8 @@ CLAIMS = {
             'intronic bases) for every exon placement, strand and breakpoint (provenance of an arbitrary position). '
             'callVariant half: on TWO concrete fusions (acceptor entered in frame / out of frame) the real '
             'call_peptide_fusion traversal reports exactly the non-canonical digestion products of donor-up-to-breakpoint + '
-            'acceptor-from-breakpoint for miscleavage 0..1 (thorough 2) and ALL integer min/max lengths.',
+            'acceptor-from-breakpoint for miscleavage 0..1 (thorough 2) and ALL integer min/max lengths; a third fusion has '
+            'an mRNA_end_NF acceptor (the open-ended last fragment is not a product).',
             'The callVariant half is decided on two fixed fusions with exonic breakpoints only; REF base content is '
             'stubbed in the parser conditions.'),
     'C18': (True, CH,
